@@ -27,6 +27,7 @@ type cval struct {
 var unknownVal = cval{}
 
 type Outcome struct {
+	Ret      *ssa.Return
 	Returned bool
 	Results  []cval
 	Stopped  ssa.Instruction // evaluation stopped here (reached the stop predicate)
@@ -40,6 +41,8 @@ type Folder struct {
 	Assume func(v ssa.Value) (cval, bool)
 	// Stop ends a path successfully at an instruction (outcome.Stopped).
 	Stop     func(in ssa.Instruction) bool
+	// OnCall observes every evaluated call with its folded arguments.
+	OnCall   func(call *ssa.Call, args []cval)
 	MaxDepth int
 	Steps    int
 	Budget   int
@@ -81,14 +84,15 @@ func (f *Folder) eval(fn *ssa.Function, args []cval, depth int) []Outcome {
 		b    *ssa.BasicBlock
 		pred *ssa.BasicBlock
 		env  fenv
+		mem  map[string]cval
 	}
-	work := []frame{{fn.Blocks[0], nil, env}}
+	work := []frame{{fn.Blocks[0], nil, env, map[string]cval{}}}
 	visits := map[*ssa.BasicBlock]int{}
 	seenState := map[string]bool{}
 	for len(work) > 0 {
 		fr := work[len(work)-1]
 		work = work[:len(work)-1]
-		sk := stateKey(fr.b, fr.pred, fr.env)
+		sk := stateKey(fr.b, fr.pred, fr.env) + memKey(fr.mem)
 		if seenState[sk] {
 			continue
 		}
@@ -99,6 +103,7 @@ func (f *Folder) eval(fn *ssa.Function, args []cval, depth int) []Outcome {
 			continue
 		}
 		env := fr.env
+		mem := fr.mem
 		done := false
 		for _, in := range fr.b.Instrs {
 			f.Steps++
@@ -121,7 +126,21 @@ func (f *Folder) eval(fn *ssa.Function, args []cval, depth int) []Outcome {
 			case *ssa.BinOp:
 				env[x] = f.binop(x, f.val(env, x.X), f.val(env, x.Y))
 			case *ssa.UnOp:
+				if x.Op == token.MUL {
+					if _, assumed := f.assume(x); !assumed {
+						if k := addrKey(env, f, x.X); k != "" {
+							if v, ok := mem[k]; ok {
+								env[x] = v
+								break
+							}
+						}
+					}
+				}
 				env[x] = f.unop(env, x)
+			case *ssa.Store:
+				if k := addrKey(env, f, x.Addr); k != "" {
+					mem[k] = f.val(env, x.Val)
+				}
 			case *ssa.Convert:
 				env[x] = convertConst(f.val(env, x.X), x.Type())
 			case *ssa.ChangeType:
@@ -135,6 +154,14 @@ func (f *Folder) eval(fn *ssa.Function, args []cval, depth int) []Outcome {
 			case *ssa.MakeSlice, *ssa.MakeMap, *ssa.MakeChan, *ssa.MakeClosure:
 				env[x.(ssa.Value)] = cval{nonNil: true}
 			case *ssa.Call:
+				// a call may modify any tracked local whose address it receives
+				for _, a := range x.Common().Args {
+					for k := range mem {
+						if strings.HasPrefix(k, a.Name()+"[") || k == a.Name() {
+							delete(mem, k)
+						}
+					}
+				}
 				env[x] = f.call(env, x, depth)
 			case *ssa.Extract:
 				env[x] = unknownVal
@@ -145,7 +172,7 @@ func (f *Folder) eval(fn *ssa.Function, args []cval, depth int) []Outcome {
 				outs = append(outs, Outcome{Panicked: true})
 				done = true
 			case *ssa.Return:
-				o := Outcome{Returned: true}
+				o := Outcome{Returned: true, Ret: x}
 				for i := range x.Results {
 					o.Results = append(o.Results, f.val(env, retVal(x, i)))
 				}
@@ -158,14 +185,14 @@ func (f *Folder) eval(fn *ssa.Function, args []cval, depth int) []Outcome {
 					if constant.BoolVal(c.v) {
 						idx = 0
 					}
-					work = append(work, frame{fr.b.Succs[idx], fr.b, env})
+					work = append(work, frame{fr.b.Succs[idx], fr.b, env, mem})
 				} else {
-					work = append(work, frame{fr.b.Succs[0], fr.b, env.clone()})
-					work = append(work, frame{fr.b.Succs[1], fr.b, env.clone()})
+					work = append(work, frame{fr.b.Succs[0], fr.b, env.clone(), cloneMem(mem)})
+					work = append(work, frame{fr.b.Succs[1], fr.b, env.clone(), cloneMem(mem)})
 				}
 				done = true
 			case *ssa.Jump:
-				work = append(work, frame{fr.b.Succs[0], fr.b, env})
+				work = append(work, frame{fr.b.Succs[0], fr.b, env, mem})
 				done = true
 			default:
 				if v, ok := in.(ssa.Value); ok {
@@ -353,6 +380,13 @@ func (f *Folder) call(env fenv, x *ssa.Call, depth int) cval {
 		return a
 	}
 	cc := x.Common()
+	if f.OnCall != nil {
+		var as []cval
+		for _, a := range cc.Args {
+			as = append(as, f.val(env, a))
+		}
+		f.OnCall(x, as)
+	}
 	if b, ok := cc.Value.(*ssa.Builtin); ok {
 		_ = b
 		return unknownVal
@@ -483,4 +517,53 @@ func acceptsNil(outs []Outcome) (accept bool, reject bool) {
 		}
 	}
 	return
+}
+
+func cloneMem(m map[string]cval) map[string]cval {
+	n := make(map[string]cval, len(m))
+	for k, v := range m {
+		n[k] = v
+	}
+	return n
+}
+
+func memKey(m map[string]cval) string {
+	if len(m) == 0 {
+		return ""
+	}
+	parts := make([]string, 0, len(m))
+	for k, v := range m {
+		if v.known {
+			parts = append(parts, k+"="+v.v.ExactString())
+		}
+	}
+	sort.Strings(parts)
+	return "|M:" + strings.Join(parts, ",")
+}
+
+// addrKey names a memory cell of a function-local object: an Alloc, or an
+// element with a constant index of a locally made slice/array.
+func addrKey(env fenv, f *Folder, addr ssa.Value) string {
+	switch a := addr.(type) {
+	case *ssa.Alloc:
+		return a.Name()
+	case *ssa.IndexAddr:
+		idx := f.val(env, a.Index)
+		if !idx.known {
+			return ""
+		}
+		base := a.X
+		for {
+			if sl, ok := base.(*ssa.Slice); ok && sl.Low == nil {
+				base = sl.X
+				continue
+			}
+			break
+		}
+		switch base.(type) {
+		case *ssa.MakeSlice, *ssa.Alloc:
+			return base.Name() + "[" + idx.v.ExactString() + "]"
+		}
+	}
+	return ""
 }
